@@ -191,13 +191,13 @@ def check_C15(tier, seed):
         N, tmo = 2, 60
     else:
         N, tmo = 3, 900
-    cat = cat + cores.random_classes(seed, 40 if tier == "quick" else 400)
+    cat = cat + cores.random_classes(seed, 40 if tier == "quick" else 150)
     # several classes in one grammar (shared Unicode class names, characters and ranges, different ^ and i)
-    cat = cat + cores.random_class_groups(seed, 24 if tier == "quick" else 300)
+    cat = cat + cores.random_class_groups(seed, 24 if tier == "quick" else 100)
     cases = [rel_case(g, ["C15"], [], ["-optimize-basic-latin"]) for g in cat]
     # the table of a class that -optimize-grammar has cloned and merged: (X, X + -optimize-basic-latin) with X = -optimize-grammar
     og = ["-optimize-grammar"]
-    for g in cores.random_class_merges(seed, 16 if tier == "quick" else 200) + [x for x in cores.opt_catalogue() if x["name"].startswith(("og_sharedcls", "og_merge0", "og_merge1"))]:
+    for g in cores.random_class_merges(seed, 16 if tier == "quick" else 80) + [x for x in cores.opt_catalogue() if x["name"].startswith(("og_sharedcls", "og_merge0", "og_merge1"))]:
         cases.append(rel_case(g, ["C15"], og, og + ["-optimize-basic-latin"], suffix="_g"))
     cases.append(rel_case(cat[0], ["TWIN"], [], ["-optimize-basic-latin"], suffix="_twin"))
     catcheck.prepare(w, cases)
@@ -279,7 +279,12 @@ def check_C17(tier, seed):
 
 
 def check_C02(tier, seed):
-    return run_ref_property("C02", tier, seed, cores.context_catalogue() + cores.composites(), ["C02"], 4, 5, tq=120, lemmas=["Action", "Label", "And", "Not", "Star", "Plus", "Opt", "Choice", "Seq", "AndCode", "NotCode", "StateCode"], rnd=(16, 150, ("state",)))
+    def positions(rep, w, agg):
+        # line, col and offset after a matched terminal are what read() reaches from the start of the input
+        # (literals with the two-byte rune last, first and in both places; any matcher; class)
+        run_lemmas(w, rep, "C02", ["Lit"], 3 if tier == "quick" else 4, tmo=300 if tier == "quick" else 1800, key="lemma_obligations_positions")
+    return run_ref_property("C02", tier, seed, cores.context_catalogue() + cores.composites(), ["C02"], 4, 5, tq=120, lemmas=["Action", "Label", "And", "Not", "Star", "Plus", "Opt", "Choice", "Seq", "AndCode", "NotCode", "StateCode"], rnd=(16, 150, ("state",)),
+                            post=positions)
 
 
 def check_C05(tier, seed):
@@ -1095,7 +1100,7 @@ def check_C20(tier, seed):
     agg = merge_agg(agg, overlay_explore(rep, "C20", ov, "Harness_C20escape$", 0, 0, tmo, "c20_escape", sample_every=23, max_triage=3, args=set(esc_args)))
     agg = merge_agg(agg, overlay_explore(rep, "C20", ov, "Harness_C20class$", 0, 3 if quick else 4, tmo, "c20_class", sample_every=23, max_triage=3))
     agg = merge_agg(agg, overlay_explore(rep, "C20", ov, "Harness_C20op$", 0, 0, tmo, "c20_op", sample_every=3, max_triage=3))
-    free_args = [8 * sk + k for sk in range(10) for k in range(1, (2 if quick else 3) + 1)] + [8 * sk + (3 if quick else 4) for sk in (1, 2)]
+    free_args = [8 * sk + k for sk in range(11) for k in range(1, (2 if quick else 3) + 1)] + [8 * sk + (3 if quick else 4) for sk in (1, 2)]
     agg = merge_agg(agg, overlay_explore(rep, "C20", ov, "Harness_C20free$", 0, 0, max(tmo, 300), "c20_free", sample_every=97, max_triage=3, args=set(free_args)))
     agg.pop("_samples", None)
     std_cov(rep, agg, rt, {"catalogue_texts": len(rt), "layout_holes": "%d symbolic layout bytes at %d token boundaries" % (hole_len, len(lay_args)),
